@@ -1749,6 +1749,12 @@ func (ex *Exec) siteAsserts(fr *frame, st *State, cc *ssa.CallCommon, instr ssa.
 					ctx.vars[fmt.Sprintf("arg%d", ai)] = tv{ex.val(st, k), a.Type()}
 				}
 			}
+			if cc.IsInvoke() {
+				// the receiver of an interface call is not among its arguments: it is named recv
+				if v, ok := st.vals[cc.Value]; ok {
+					ctx.vars["recv"] = tv{v, cc.Value.Type()}
+				}
+			}
 			g := ex.evalBool(ctx, cl)
 			o := ex.oblige(st, fmt.Sprintf("assert[%s]", key), fmt.Sprintf("assertion %d before the call: %s", i, cl.Text), g, pos)
 			if o != nil {
